@@ -295,6 +295,7 @@ fn run_case(c: &Case) -> Chk<Pass> {
             }
             Op::Generate(k) => {
                 let k = *k;
+                if k > 16 { continue }
                 let all: Vec<BitSeq> = valid(&what, || BitSeq::generate(k).collect())?;
                 ensure!(all.len() == 1usize << k, "{what}: generate({k}) yields {} items", all.len());
                 let mut vals: Vec<u64> = all.iter().map(|b| b.as_u64()).collect();
